@@ -420,8 +420,8 @@ func (w *world) visNumber(top []int, nested []*gscope) (sets [][]int, wf bool) {
 
 func sameSpace(a, b int) bool { return a == b && (a == 0 || a == 2) }
 
-// harness-side statement of what must be reserved: the pinned names of every module scope and
-// of every scope reached from it through scopes that contain direct eval (all such children)
+// harness-side statement of what must be reserved: the pinned names of every scope of the
+// module scope trees (free names, eval-visible names, names referenced in `with`, arguments)
 func (w *world) evalPinnedNames() map[string]bool {
 	out := map[string]bool{}
 	var walk func(g *gscope)
@@ -431,12 +431,8 @@ func (w *world) evalPinnedNames() map[string]bool {
 				out[w.syms[id].name] = true
 			}
 		}
-		if g.directEval {
-			for _, c := range g.children {
-				if c.directEval {
-					walk(c)
-				}
-			}
+		for _, c := range g.children {
+			walk(c)
 		}
 	}
 	for _, m := range w.modules {
